@@ -207,6 +207,24 @@ def run(ctx):
         configs.append(('cache(n=None)', r, (lambda T=T: etl.wrap(T).cache()), ('cache', None, T)))
         configs.append(('cache(n=3)', r, (lambda T=T: etl.wrap(T).cache(3)), ('cache', 3, T)))
         configs.append(('sort(buffersize=2,cache=True)', r, (lambda T=T: etl.sort(T, 'k', buffersize=2, tempdir=tmpd)), None))
+    # thorough tier: a generator longer than any in-memory buffer a view may keep (100 000 rows and more), a leader far ahead
+    # of a lagging iterator
+    if ctx.thorough():
+        nbig = 100050
+        vbig = etl.fromdicts(({'a': i} for i in range(nbig)), header=['a'])
+        lead, lag = iter(vbig), iter(vbig)
+        got_lag = [next(lag) for _ in range(11)]
+        n_lead = sum(1 for _ in itertools.islice(lead, nbig - 20))
+        got_lag += list(lag)
+        rest_lead = list(lead)
+        okbig = got_lag == [('a',)] + [(i,) for i in range(nbig)] and n_lead + len(rest_lead) == nbig + 1 and list(vbig)[-1] == (nbig - 1,)
+        ctx.case(('fromdicts(generator)', 'long', nbig))
+        ctx.count('view:fromdicts-long')
+        if not okbig:
+            bad = next((i for i, r in enumerate(got_lag) if r != (('a',) if i == 0 else (i - 1,))), len(got_lag))
+            ctx.spec_fail('fromdicts|long|wrong-rows', 'fromdicts(generator) of %d items: the lagging one of two iterators does not yield the rows of a solo pass' % nbig,
+                          {'items': nbig, 'lagging iterator first differs at row': bad, 'rows it delivered': len(got_lag)})
+        del vbig, lead, lag
     mach_lines, mach_meta = [], []
     try:
         for (name, r, mk, mach) in configs:
